@@ -360,6 +360,26 @@ def main():
                 finally:
                     srv.close()
                     shutil.rmtree(dst_path, ignore_errors=True)
+            # -------- push into a receiver that is complete for its refs but ALSO holds a stray, unreachable copy of a pushed tip commit
+            #          (e.g. left by an interrupted transfer): the tip's closure must still arrive
+            for have in states[:: max(1, len(states) // 3)]:
+                for transport in ("local", "git-upload-pack"):
+                    n += 1
+                    cases += 1
+                    what = {"history": shape, "transport": transport, "direction": "push", "receiver_has": list(have), "stray": "tip commit objects without their closure"}
+                    dst_path = os.path.join(d, f"stray{n}")
+                    have_objs = [objs[x] for x in closure(children, [commits[c].id for c in have])]
+                    have_refs = {b"refs/heads/h-" + c.encode(): commits[c].id for c in have}
+                    strays = [objs[v] for v in refs.values() if isinstance(objs[v], Commit)]
+                    dst = install(dst_path, have_objs + strays, have_refs)
+                    dst.close()
+                    try:
+                        do_push(transport, src_path, dst_path, None, refs)
+                        check_receiver(dst_path, objs, children, refs, list(have_refs.values()) + [o.id for o in strays], what, dangling_ids)
+                    except Exception as e:  # noqa: BLE001
+                        fail("transfer raised", dict(what, exc=repr(e)[:300]))
+                    finally:
+                        shutil.rmtree(dst_path, ignore_errors=True)
             # -------- clone into nothing
             for transport in ("local", "git-upload-pack"):
                 cases += 1
@@ -384,10 +404,81 @@ def main():
                 except Exception as e:  # noqa: BLE001
                     fail("clone raised", {"history": shape, "transport": transport, "exc": repr(e)[:300]})
             src.close()
+        # -------- shallow receivers: main c0<-c1<-c2<-c3, side forks below the boundary: c1<-s1<-s2
+        def shallow_history():
+            objs2 = {}
+
+            def add2(*os_):
+                for o in os_:
+                    objs2[o.id] = o
+                return os_[0]
+            cs = {}
+            prev = []
+            for i in range(4):
+                c = add2(mk_commit(add2(tree([(b"f", 0o100644, add2(blob(b"main %d\n" % i)))])), prev, b"c%d" % i, i))
+                cs[f"c{i}"] = c
+                prev = [c]
+            prev = [cs["c1"]]
+            for i in (1, 2):
+                c = add2(mk_commit(add2(tree([(b"g", 0o100644, add2(blob(b"side %d\n" % i)))])), prev, b"s%d" % i, 10 + i))
+                cs[f"s{i}"] = c
+                prev = [c]
+            return objs2, cs
+        objs2, cs = shallow_history()
+        src2_path = os.path.join(d, "src_shallow")
+        src2 = install(src2_path, list(objs2.values()), {b"refs/heads/main": cs["c3"].id, b"refs/heads/side": cs["s2"].id})
+
+        def objects_of(commit_names):
+            out = set()
+            for nm in commit_names:
+                c = cs[nm]
+                out.add(c.id)
+                out.add(c.tree)
+                out.update(e.sha for e in objs2[c.tree].iteritems())
+            return out
+        for label, transport, depth, expect in (("non-depth fetch of a branch forking below the boundary", "git-upload-pack", None, ["s2", "s1", "c1", "c0"]),
+                                                 ("non-depth fetch of a branch forking below the boundary", "local", None, ["s2", "s1", "c1", "c0"]),
+                                                 ("depth-2 fetch of a branch forking below the boundary", "tcp", 2, ["s2", "s1"]),
+                                                 ("depth-2 fetch of a branch forking below the boundary", "git-upload-pack", 2, ["s2", "s1"]),
+                                                 ("depth-3 fetch of a branch forking below the boundary", "tcp", 3, ["s2", "s1", "c1"])):
+            cases += 1
+            what = {"history": "main c0..c3, side forks at c1", "receiver": "depth-1 clone of main", "fetch": label, "transport": transport}
+            dst_path = os.path.join(d, f"shallow_{transport}_{depth}")
+            dst = Repo.init_bare(dst_path, mkdir=True)
+            srv = None
+            try:
+                # 1. the receiver becomes a depth-1 clone of main (through C git's upload-pack, the reference implementation)
+                res = SubprocessGitClient().fetch(src2_path, dst, determine_wants=lambda refs_, depth=None: [refs_[b"refs/heads/main"]], depth=1, progress=lambda x: None)
+                dst.refs[b"refs/heads/main"] = cs["c3"].id
+                if cs["c2"].id in dst.object_store or cs["c3"].id not in dst.object_store:
+                    fail("harness: the receiver is not the intended depth-1 clone", what)
+                    continue
+                # 2. fetch side only
+                if transport == "tcp":
+                    srv = TcpServer(src2)
+                    client, path = TCPGitClient("127.0.0.1", port=srv.port), "/"
+                elif transport == "local":
+                    client, path = LocalGitClient(), src2_path
+                else:
+                    client, path = SubprocessGitClient(), src2_path
+                kw = {"depth": depth} if depth else {}
+                res = client.fetch(path, dst, determine_wants=lambda refs_, depth=None: [refs_[b"refs/heads/side"]], progress=lambda x: None, **kw)
+                missing = [x for x in objects_of(expect) if x not in dst.object_store]
+                if missing:
+                    fail("shallow receiver is incomplete after the fetch", dict(what, missing=[objs2[m].type_name.decode() + ":" + objs2[m].message.decode() if isinstance(objs2[m], Commit) else objs2[m].type_name.decode() for m in missing][:6]))
+            except Exception as e:  # noqa: BLE001
+                fail("shallow fetch raised", dict(what, exc=repr(e)[:300]))
+            finally:
+                if srv:
+                    srv.close()
+                dst.close()
+                shutil.rmtree(dst_path, ignore_errors=True)
+        src2.close()
     print("\n" + json.dumps({"name": "c05_transfer", "function": "dulwich/object_store.py MissingObjectFinder, client.py fetch/send_pack, server.py upload-pack/receive-pack handlers, web.py", "cases": cases,
                              "exhaustive": True, "bound": "3 histories (linear; criss-cross merges with shared subtrees/blobs; two roots + gitlink + tags of commit/tag/tree/blob) + dangling objects on the sender; "
                              "every ancestor-closed receiver state (every 2nd in quick) x {local, dulwich TCP, dulwich smart HTTP, C git subprocess server} x {fetch, push}; all (haves, wants) pairs for "
-                             "MissingObjectFinder; C git client against the dulwich TCP server; clone", "skipped": skipped, "failures": failures, "secs": round(time.time() - t0, 2)}))
+                             "MissingObjectFinder; C git client against the dulwich TCP server; clone; pushes into receivers holding stray tip commits; 5 fetches into a depth-1 shallow receiver "
+                             "(non-depth and depth 2/3 of a branch forking below the boundary; local, dulwich TCP, C git upload-pack)", "skipped": skipped, "failures": failures, "secs": round(time.time() - t0, 2)}))
 
 
 if __name__ == "__main__":
